@@ -63,7 +63,7 @@ def _spec(d: D, ids: list[int], depth: int, tier: str) -> dict:
     if route.startswith("ctxtd"):
         kind = "async"
     else:
-        kind = d.weighted([("sync", 40), ("async", 40), ("sync_awaitable", 20)])
+        kind = d.weighted([("sync", 40), ("async", 35), ("sync_awaitable", 13), ("sync_custom_awaitable", 12)])
     s: dict[str, Any] = {"id": sid, "route": route, "kind": kind}
     if kind != "sync":
         s["cps"] = d.int(0, 2)
@@ -115,6 +115,14 @@ def strategy(prop: str, tier: str) -> st.SearchStrategy:
 # ------------------------------------------------------------------------------------
 # interpreter
 # ------------------------------------------------------------------------------------
+
+
+class _Awaitable:
+    def __init__(self, coro: Any) -> None:
+        self.coro = coro
+
+    def __await__(self) -> Any:
+        return self.coro.__await__()
 
 
 class _Cancelled(BaseException):
@@ -224,6 +232,11 @@ class Interp:
             if takes_arg:
                 return lambda exc: body_async(exc, True)
             return lambda: body_async(None, False)
+        if kind == "sync_custom_awaitable":
+            # ... an awaitable that is not a coroutine object (an object with __await__)
+            if takes_arg:
+                return lambda exc: _Awaitable(body_async(exc, True))
+            return lambda: _Awaitable(body_async(None, False))
         raise HarnessError(kind)
 
     def register(self, spec: dict, during_teardown: bool = False) -> Any:
